@@ -52,11 +52,17 @@ func (f *CamelCaseFilter) Filter(input analysis.TokenStream) analysis.TokenStrea
 		runes := bytes.Runes(token.Term)
 
 		p := NewParser(runeCount, token.Start)
+		consumed := 0
 		for i := 0; i < runeCount; i++ {
+			// offsets advance by the width of the rune in the source term:
+			// an invalid byte is 1 byte wide there, although it is
+			// re-encoded as a 3 byte U+FFFD in the resulting term
+			_, width := utf8.DecodeRune(token.Term[consumed:])
+			consumed += width
 			if i+1 >= runeCount {
-				p.Push(runes[i], nil)
+				p.push(runes[i], width, nil)
 			} else {
-				p.Push(runes[i], &runes[i+1])
+				p.push(runes[i], width, &runes[i+1])
 			}
 		}
 		rv = append(rv, p.FlushTokens()...)
